@@ -1,9 +1,9 @@
-import JL.Lemmas.Monad
+import JL.Lemmas.C06
 /-!
 # C06 — one JsonLogic truthiness table governs every boolean decision
 -/
 namespace JL.Props.C06
-open JL Json
+open JL Json JL.Lemmas.C06
 
 /-- the JsonLogic truthiness table, written from the property: false, null, zero (any spelling, incl. -0),
 the empty string and the empty array are falsy; everything else is truthy -/
@@ -33,5 +33,350 @@ theorem bang (v : Json) : execEager "!".toList [v] = ⟨[], .ok (.bool (!truthy 
 /-- zero in every spelling is falsy -/
 example : truthy (.num (.pos 0)) = false ∧ truthy (.num (.flt (F64.fin true 0))) = false ∧ truthy (.num (.flt (F64.fin false 0))) = false := by decide +kernel
 example : truthy (.str "0".toList) = true ∧ truthy (.arr [.num (.pos 0)]) = true ∧ truthy (.arr [.arr []]) = true ∧ truthy (.obj []) = true := by decide
+
+
+/-! ## numbers: falsy exactly when the double is ±0 -/
+
+/-- **Falsy numbers.** A (well-formed) number is falsy iff it is `0` (`PosInt(0)`), `0.0` or `-0.0` — for every
+`u64`, every negative `i64` and every finite double, no size bound: converting a non-zero integer to a double never
+gives zero, however large it is. -/
+theorem truthy_num (n : Num) (h : Num.WF n) :
+    truthy (.num n) = false ↔ n = .pos 0 ∨ ∃ b, n = .flt (F64.fin b 0) := by
+  simp only [truthy, Bool.not_eq_false', toF64_eq_zero]
+  constructor
+  · rintro (h1 | h1 | h1)
+    · exact Or.inl h1
+    · subst h1; simp [Num.WF] at h
+    · exact Or.inr h1
+  · rintro (h1 | h1)
+    · exact Or.inl h1
+    · exact Or.inr (Or.inr h1)
+
+/-- in terms of the double: falsy iff `as_f64() == 0.0` (true of `+0.0` and `-0.0` only) -/
+theorem truthy_num_f64 (n : Num) : truthy (.num n) = !(F64.eq n.toF64 F64.zero) := rfl
+theorem f64_eq_zero_iff (x : F64) : F64.eq x F64.zero = true ↔ ∃ b, x = F64.fin b 0 := by
+  cases x with
+  | nan => simp [F64.eq]
+  | inf b => simp [F64.eq, F64.zero]
+  | fin b k => simp [eq_zero_fin]
+
+example : Num.WF (.pos (2^64 - 1)) ∧ Num.WF (.neg (2^63)) ∧ Num.WF (.flt (F64.fin true 1)) := by decide +kernel
+example : truthy (.num (.pos (2^64 - 1))) = true ∧ truthy (.num (.neg 1)) = true ∧ truthy (.num (.flt (F64.fin true 1))) = true := by
+  decide +kernel
+
+/-! ## `if` / `?:` conditions -/
+
+/-- the even-index (condition) step of the fold of `logic::if_`: the branch is chosen by `truthy` of the condition's value -/
+theorem if_cond_step (c : Json) (rest : List Json) (i : Nat) (last : Json) (w : Bool) (d : Json) (hi : i % 2 = 0) :
+    runIf (c :: rest) i (last, w, false) d =
+      if check c then (do let cv ← run c d; runIf rest (i + 1) (cv, truthy cv, false) d) else M.err := by
+  simp [runIf, hi]
+
+/-- the odd-index (consequent) step: taken iff the preceding condition's value was truthy, and then the fold returns -/
+theorem if_branch_step (t : Json) (rest : List Json) (i : Nat) (last : Json) (w : Bool) (d : Json) (hi : i % 2 = 1) :
+    runIf (t :: rest) i (last, w, false) d =
+      if w then (if check t then (do let tv ← run t d; runIf rest (i + 1) (tv, true, true) d) else M.err)
+      else runIf rest (i + 1) (.null, w, false) d := by
+  simp [runIf, hi]
+
+/-- `{"if": [c, t, e]}` is `t` if `truthy ⟦c⟧` else `e` — the unselected branch is neither parsed nor evaluated -/
+theorem if_then_else (c t e d : Json) :
+    run (.obj [("if".toList, .arr [c, t, e])]) d =
+      if check c then
+        (do let cv ← run c d
+            if truthy cv then (if check t then run t d else M.err) else (if check e then run e d else M.err))
+      else M.err := by
+  have hl : lookupOp "if".toList = some (.lazy, .any) := by decide
+  conv => lhs; unfold run
+  simp only [hl]
+  simp only [decide_true, Bool.true_or, if_true]
+  simp only [if_cond_step, if_branch_step, runIf_returned]
+  simp only [runIf, M.bind_pure]
+
+/-- the same for the alias `?:` -/
+theorem ternary_then_else (c t e d : Json) :
+    run (.obj [("?:".toList, .arr [c, t, e])]) d =
+      if check c then
+        (do let cv ← run c d
+            if truthy cv then (if check t then run t d else M.err) else (if check e then run e d else M.err))
+      else M.err := by
+  have hl : lookupOp "?:".toList = some (.lazy, .any) := by decide
+  conv => lhs; unfold run
+  simp only [hl]
+  simp only [decide_true, Bool.or_true, if_true]
+  simp only [if_cond_step, if_branch_step, runIf_returned]
+  simp only [runIf, M.bind_pure]
+
+/-! ## `and` / `or` -/
+
+/-- one step of the fold of `or` (`isOr = true`) / `and` (`false`) while undecided: the operand's value `e` decides
+iff `truthy e = isOr`, and then nothing more is evaluated -/
+theorem orAnd_step (isOr : Bool) (x : Json) (xs : List Json) (d : Json) :
+    runOrAnd isOr (x :: xs) .uninit d =
+      if check x then
+        (do let e ← run x d
+            if truthy e == isOr then pure (.decided e) else runOrAnd isOr xs (.current e) d)
+      else M.err := by
+  simp only [runOrAnd]
+  split
+  · congr 1; funext e
+    split <;> simp [runOrAnd_decided]
+  · rfl
+
+theorem orAnd_step_current (isOr : Bool) (x : Json) (xs : List Json) (r d : Json) :
+    runOrAnd isOr (x :: xs) (.current r) d =
+      if check x then
+        (do let e ← run x d
+            if truthy e == isOr then pure (.decided e) else runOrAnd isOr xs (.current e) d)
+      else M.err := by
+  simp only [runOrAnd]
+  split
+  · congr 1; funext e
+    split <;> simp [runOrAnd_decided]
+  · rfl
+
+/-- `{"or": [a, b]}`: `a`'s value if it is truthy (and `b` is not even parsed), else `b`'s -/
+theorem or_two (a b d : Json) :
+    run (.obj [("or".toList, .arr [a, b])]) d =
+      if check a then
+        (do let av ← run a d
+            if truthy av then pure av else (if check b then run b d else M.err))
+      else M.err := by
+  have hl : lookupOp "or".toList = some (.lazy, .atLeast 1) := by decide
+  conv => lhs; unfold run
+  simp only [hl]
+  have h1 : ("or".toList = "if".toList) = False := by decide
+  have h2 : ("or".toList = "?:".toList) = False := by decide
+  simp only [h1, h2, decide_false, Bool.or_false, Bool.false_eq_true, if_false, if_true, orAnd_step, orAnd_step_current]
+  split
+  · rw [M.bind_assoc]; congr 1; funext e
+    cases truthy e <;> simp [runOrAnd]
+    split
+    · rw [M.bind_assoc]
+      conv => rhs; rw [← M.bind_pure (run b d)]
+      congr 1; funext e'
+      split <;> rfl
+    · rfl
+  · rfl
+
+
+/-- `{"and": [a, b]}`: `a`'s value if it is falsy (and `b` is not even parsed), else `b`'s -/
+theorem and_two (a b d : Json) :
+    run (.obj [("and".toList, .arr [a, b])]) d =
+      if check a then
+        (do let av ← run a d
+            if truthy av then (if check b then run b d else M.err) else pure av)
+      else M.err := by
+  have hl : lookupOp "and".toList = some (.lazy, .atLeast 1) := by decide
+  conv => lhs; unfold run
+  simp +decide only [hl, if_false, if_true, orAnd_step, orAnd_step_current]
+  split
+  · rw [M.bind_assoc]; congr 1; funext e
+    cases truthy e <;> simp [runOrAnd]
+    split
+    · rw [M.bind_assoc]
+      conv => rhs; rw [← M.bind_pure (run b d)]
+      congr 1; funext e'
+      split <;> rfl
+    · rfl
+  · rfl
+
+/-! ## `filter` -/
+
+/-- the fold of `filter`: an element is kept iff the predicate's value on it is truthy (same table) -/
+theorem filter_keeps (f : Json → M Json) (g : Json → Json) (xs : List Json)
+    (h : ∀ x ∈ xs, (f x).out = .ok (g x)) :
+    (filterData f xs).out = .ok (xs.filter (fun x => truthy (g x))) := by
+  induction xs with
+  | nil => rfl
+  | cons x xs ih =>
+    have hx := h x List.mem_cons_self
+    have ih' := ih (fun y hy => h y (List.mem_cons_of_mem _ hy))
+    simp only [filterData]
+    rw [out_bind_ok hx, out_bind_ok ih']
+    simp only [M.pure_out, List.filter_cons]
+
+/-- operator level: `{"filter": [c, e]}` with `c` evaluating to an array -/
+theorem filter_op (c e d : Json) (l : List Json) (items : List Json) (g : Json → Json)
+    (hc : check c = true) (hcv : run c d = ⟨l, .ok (.arr items)⟩) (he : check e = true)
+    (h : ∀ x ∈ items, (run e x).out = .ok (g x)) :
+    (run (.obj [("filter".toList, .arr [c, e])]) d).out = .ok (.arr (items.filter (fun x => truthy (g x)))) := by
+  have hl : lookupOp "filter".toList = some (.lazy, .exactly 2) := by decide
+  conv => lhs; unfold run
+  simp only [hl]
+  have h1 : ("filter".toList = "if".toList) = False := by decide
+  have h2 : ("filter".toList = "?:".toList) = False := by decide
+  have h3 : ("filter".toList = "or".toList) = False := by decide
+  have h4 : ("filter".toList = "and".toList) = False := by decide
+  have h5 : ("filter".toList = "map".toList) = False := by decide
+  simp only [h1, h2, h3, h4, h5, decide_false, Bool.or_false, Bool.false_eq_true, if_false, if_true, hc, he, hcv,
+    Bool.not_true, M.bind_ok]
+  rw [out_bind_ok (filter_keeps _ g items h)]
+  rfl
+
+/-! ## `all` / `some` / `none` -/
+
+/-- the fold of `all` over data items: true iff the predicate's value is truthy on every item -/
+theorem all_data (p : Json → M Json) (g : Json → Json) (xs : List Json)
+    (h : ∀ x ∈ xs, (p x).out = .ok (g x)) :
+    (quantData true p xs true).out = .ok (xs.all (fun x => truthy (g x))) := by
+  induction xs with
+  | nil => rfl
+  | cons x xs ih =>
+    have hx := h x List.mem_cons_self
+    have ih' := ih (fun y hy => h y (List.mem_cons_of_mem _ hy))
+    simp only [quantData, bne_self_eq_false, Bool.false_eq_true, if_false, List.all_cons]
+    rw [out_bind_ok hx]
+    cases ht : truthy (g x)
+    · exact congrArg M.out (quantData_decided true p xs)
+    · simpa using ih'
+
+/-- the fold of `some` over data items: true iff the predicate's value is truthy on at least one item -/
+theorem some_data (p : Json → M Json) (g : Json → Json) (xs : List Json)
+    (h : ∀ x ∈ xs, (p x).out = .ok (g x)) :
+    (quantData false p xs false).out = .ok (xs.any (fun x => truthy (g x))) := by
+  induction xs with
+  | nil => rfl
+  | cons x xs ih =>
+    have hx := h x List.mem_cons_self
+    have ih' := ih (fun y hy => h y (List.mem_cons_of_mem _ hy))
+    simp only [quantData, bne_self_eq_false, Bool.false_eq_true, if_false, List.any_cons]
+    rw [out_bind_ok hx]
+    cases ht : truthy (g x)
+    · simpa using ih'
+    · exact congrArg M.out (quantData_decided false p xs)
+
+/-- the fold of `all` over the element expressions of a literal array -/
+theorem all_lit (p : Json → M Json) (v g : Json → Json) (is : List Json) (d : Json)
+    (hv : ∀ i ∈ is, check i = true ∧ (run i d).out = .ok (v i))
+    (hp : ∀ i ∈ is, (p (v i)).out = .ok (g i)) :
+    (runQuantLit true is p d true).out = .ok (is.all (fun i => truthy (g i))) := by
+  induction is with
+  | nil => rfl
+  | cons x xs ih =>
+    have hx := hv x List.mem_cons_self
+    have hpx := hp x List.mem_cons_self
+    have ih' := ih (fun y hy => hv y (List.mem_cons_of_mem _ hy)) (fun y hy => hp y (List.mem_cons_of_mem _ hy))
+    simp only [runQuantLit, bne_self_eq_false, Bool.false_eq_true, if_false, List.all_cons, hx.1, Bool.not_true]
+    rw [out_bind_ok hx.2, out_bind_ok hpx]
+    cases ht : truthy (g x)
+    · exact congrArg M.out (runQuantLit_decided true p xs d)
+    · simpa using ih'
+
+theorem some_lit (p : Json → M Json) (v g : Json → Json) (is : List Json) (d : Json)
+    (hv : ∀ i ∈ is, check i = true ∧ (run i d).out = .ok (v i))
+    (hp : ∀ i ∈ is, (p (v i)).out = .ok (g i)) :
+    (runQuantLit false is p d false).out = .ok (is.any (fun i => truthy (g i))) := by
+  induction is with
+  | nil => rfl
+  | cons x xs ih =>
+    have hx := hv x List.mem_cons_self
+    have hpx := hp x List.mem_cons_self
+    have ih' := ih (fun y hy => hv y (List.mem_cons_of_mem _ hy)) (fun y hy => hp y (List.mem_cons_of_mem _ hy))
+    simp only [runQuantLit, bne_self_eq_false, Bool.false_eq_true, if_false, List.any_cons, hx.1, Bool.not_true]
+    rw [out_bind_ok hx.2, out_bind_ok hpx]
+    cases ht : truthy (g x)
+    · simpa using ih'
+    · exact congrArg M.out (runQuantLit_decided false p xs d)
+
+
+theorem all_op_lit (xs : List Json) (p d : Json) :
+    run (.obj [("all".toList, .arr [.arr xs, p])]) d =
+      if xs.isEmpty then pure (.bool false)
+      else if !check p then M.err
+      else (do let b ← runQuantLit true xs (fun x => run p x) d true; pure (.bool b)) := by
+  have hl : lookupOp "all".toList = some (.lazy, .exactly 2) := by decide
+  conv => lhs; unfold run
+  simp +decide only [hl, if_false, if_true, decide_true]
+
+theorem some_op_lit (xs : List Json) (p d : Json) :
+    run (.obj [("some".toList, .arr [.arr xs, p])]) d =
+      if xs.isEmpty then pure (.bool false)
+      else if !check p then M.err
+      else (do let b ← runQuantLit false xs (fun x => run p x) d false; pure (.bool b)) := by
+  have hl : lookupOp "some".toList = some (.lazy, .exactly 2) := by decide
+  conv => lhs; unfold run
+  simp +decide only [hl, if_false, if_true, decide_false]
+
+theorem none_op_lit (xs : List Json) (p d : Json) :
+    run (.obj [("none".toList, .arr [.arr xs, p])]) d =
+      if xs.isEmpty then pure (.bool true)
+      else if !check p then M.err
+      else (do let b ← runQuantLit false xs (fun x => run p x) d false; pure (.bool (!b))) := by
+  have hl : lookupOp "none".toList = some (.lazy, .exactly 2) := by decide
+  conv => lhs; unfold run
+  simp +decide only [hl, if_false, if_true, decide_false]
+  split
+  · rfl
+  · split
+    · rfl
+    · rw [M.bind_assoc]; rfl
+
+
+/-- a computed collection (an object = an operation or a literal object): it is evaluated, then `quantValue` -/
+theorem all_op_obj (kvs : List (Str × Json)) (p d : Json) :
+    run (.obj [("all".toList, .arr [.obj kvs, p])]) d =
+      if !check (.obj kvs) then M.err
+      else (do let cv ← run (.obj kvs) d; quantValue true cv (check p) (fun x => run p x)) := by
+  have hl : lookupOp "all".toList = some (.lazy, .exactly 2) := by decide
+  conv => lhs; unfold run
+  simp +decide only [hl, if_false, if_true, decide_true, isObj]
+
+theorem some_op_obj (kvs : List (Str × Json)) (p d : Json) :
+    run (.obj [("some".toList, .arr [.obj kvs, p])]) d =
+      if !check (.obj kvs) then M.err
+      else (do let cv ← run (.obj kvs) d; quantValue false cv (check p) (fun x => run p x)) := by
+  have hl : lookupOp "some".toList = some (.lazy, .exactly 2) := by decide
+  conv => lhs; unfold run
+  simp +decide only [hl, if_false, if_true, decide_false, isObj]
+
+/-- `all`/`some` on a non-empty computed array: the data fold, i.e. `List.all`/`List.any` of `truthy ∘ predicate` -/
+theorem quantValue_all (p : Json → M Json) (g : Json → Json) (x : Json) (xs : List Json)
+    (h : ∀ y ∈ x :: xs, (p y).out = .ok (g y)) :
+    (quantValue true (.arr (x :: xs)) true p).out = .ok (.bool ((x :: xs).all (fun y => truthy (g y)))) := by
+  simp only [quantValue, quantItems, List.isEmpty_cons, Bool.false_eq_true, if_false, Bool.not_true]
+  rw [out_bind_ok (all_data p g (x :: xs) h)]
+  rfl
+
+theorem quantValue_some (p : Json → M Json) (g : Json → Json) (x : Json) (xs : List Json)
+    (h : ∀ y ∈ x :: xs, (p y).out = .ok (g y)) :
+    (quantValue false (.arr (x :: xs)) true p).out = .ok (.bool ((x :: xs).any (fun y => truthy (g y)))) := by
+  simp only [quantValue, quantItems, List.isEmpty_cons, Bool.false_eq_true, if_false, Bool.not_true]
+  rw [out_bind_ok (some_data p g (x :: xs) h)]
+  rfl
+
+/-! ## the corner values at every deciding position (closed evaluations of the model: `[]`, `""`, `0`, `-0.0`, `null`
+are falsy and `"0"`, `[0]`, `[[]]`, `{}` are truthy in *each* of them) -/
+section corners
+/-- `{"var": ""}`: the current data item -/
+private def it : Json := .obj [("var".toList, .str [])]
+private def s (x : String) : Json := .str x.toList
+private def negZero : Json := .num (.flt (F64.fin true 0))
+private def zero : Json := .num (.pos 0)
+private def falsies : List Json := [.null, .bool false, zero, negZero, s "", .arr []]
+private def truthies : List Json := [s "0", .arr [zero], .arr [.arr []], .obj [], .bool true, s " "]
+
+example : falsies.all (fun v => truthy v == false) = true ∧ truthies.all truthy = true := by decide +kernel
+/-- `if` / `?:` -/
+example : (falsies.all fun v => apply (.obj [("if".toList, .arr [v, s "t", s "e"])]) .null == ⟨[], .ok (s "e")⟩) = true := by decide +kernel
+example : (truthies.all fun v => apply (.obj [("if".toList, .arr [v, s "t", s "e"])]) .null == ⟨[], .ok (s "t")⟩) = true := by decide +kernel
+example : (falsies.all fun v => apply (.obj [("?:".toList, .arr [v, s "t", s "e"])]) .null == ⟨[], .ok (s "e")⟩) = true := by decide +kernel
+/-- `or` / `and` -/
+example : (falsies.all fun v => apply (.obj [("or".toList, .arr [v, s "x"])]) .null == ⟨[], .ok (s "x")⟩) = true := by decide +kernel
+example : (truthies.all fun v => apply (.obj [("or".toList, .arr [v, s "x"])]) .null == ⟨[], .ok v⟩) = true := by decide +kernel
+example : (falsies.all fun v => apply (.obj [("and".toList, .arr [v, s "x"])]) .null == ⟨[], .ok v⟩) = true := by decide +kernel
+example : (truthies.all fun v => apply (.obj [("and".toList, .arr [v, s "x"])]) .null == ⟨[], .ok (s "x")⟩) = true := by decide +kernel
+/-- `filter` keeps exactly the truthy ones -/
+example : apply (.obj [("filter".toList, .arr [.arr (falsies ++ truthies), it])]) .null = ⟨[], .ok (.arr truthies)⟩ := by decide +kernel
+/-- `all` / `some` / `none` -/
+example : apply (.obj [("all".toList, .arr [.arr truthies, it])]) .null = ⟨[], .ok (.bool true)⟩ := by decide +kernel
+example : (falsies.all fun v => apply (.obj [("all".toList, .arr [.arr (v :: truthies), it])]) .null == ⟨[], .ok (.bool false)⟩) = true := by decide +kernel
+example : apply (.obj [("some".toList, .arr [.arr falsies, it])]) .null = ⟨[], .ok (.bool false)⟩ := by decide +kernel
+example : (truthies.all fun v => apply (.obj [("some".toList, .arr [.arr (falsies ++ [v]), it])]) .null == ⟨[], .ok (.bool true)⟩) = true := by decide +kernel
+example : apply (.obj [("none".toList, .arr [.arr falsies, it])]) .null = ⟨[], .ok (.bool true)⟩ := by decide +kernel
+/-- `!!` / `!` -/
+example : (falsies.all fun v => apply (.obj [("!!".toList, .arr [v])]) .null == ⟨[], .ok (.bool false)⟩) = true := by decide +kernel
+example : (truthies.all fun v => apply (.obj [("!".toList, .arr [v])]) .null == ⟨[], .ok (.bool false)⟩) = true := by decide +kernel
+end corners
 
 end JL.Props.C06
